@@ -15,6 +15,7 @@ import mirq
 from mirq import show, access_path, AnchorMissing, const_of, walk
 from rulekit import Table
 from rules import common as C
+from rules import vocab as V
 from rules import C07, C01
 
 TABLE = Table('C11')
@@ -55,7 +56,7 @@ def r1(cx, rec):
                     clo = y
             x = x[2][0] if x[2] else ('other', '')
         src = access_path(x)
-        rec.need(chain == ['collect', 'map', 'iter'] and src == 'pieces_status', 'bitfield-chain', B, bi,
+        rec.need(chain == ['collect', 'map', 'iter'] and src is not None and V.is_status_seq(B, x), 'bitfield-chain', B, bi,
                  'bitfield is built by %s over %s (expected iter().map().collect() over the status vector)' % (chain, src))
         if clo:
             cf = F.fn(clo[1])
@@ -144,7 +145,7 @@ def r3(cx, rec):
         # selection by the choke flag
         for s2 in g.switches():
             ce, ts2, o2 = g.cond(s2)
-            if (access_path(ce) or '').endswith('peer_state.choked') and g.bool_edges(s2) and sends and pushes:
+            if (access_path(ce) or '').endswith(V.handler_choked(F)) and g.bool_edges(s2) and sends and pushes:
                 tt, ff = g.bool_edges(s2)
                 if all(bb in g.only_via_edge((s2, tt)) for bb, _ in pushes) and all(bb in g.only_via_edge((s2, ff)) for bb, _ in sends):
                     sel = True
@@ -193,7 +194,7 @@ def r4(cx, rec):
             ok, why = C.error_propagates(f, fb)
             rec.need(ok, 'flush-error-ignored', f, fb, 'send error during flush ignored: ' + why)
         # it runs on unchoke: same function stores choked = false before
-        st = [bi for bi, si, s in f.stores() if (access_path(f.expr_place(s['lhs'])) or '').endswith('peer_state.choked') and const_of(f.expr_rvalue(s['rv'])) and const_of(f.expr_rvalue(s['rv']))[0] == 0]
+        st = [bi for bi, si, s in f.stores() if (access_path(f.expr_place(s['lhs'])) or '').endswith(V.handler_choked(F)) and const_of(f.expr_rvalue(s['rv'])) and const_of(f.expr_rvalue(s['rv']))[0] == 0]
         rec.site(f, st[0] if st else None, 'choked := false before the flush')
         rec.need(bool(st) and all(cb in f.reach_from(s) for s in st), 'flush-not-on-unchoke', f, cb, 'the flush is not tied to the peer unchoking us')
         D, sbs = C.frame_dispatch(F)
@@ -204,7 +205,7 @@ def r4(cx, rec):
     # choked := true only in the Choke arm handler, so buffering matches the peer's state
     for f in F.user_fns():
         for bi, si, s in f.stores():
-            if (access_path(f.expr_place(s['lhs'])) or '').endswith('peer_state.choked'):
+            if (access_path(f.expr_place(s['lhs'])) or '').endswith(V.handler_choked(F)):
                 rec.site(f, bi, 'peer_state.choked := %s' % show(f.expr_rvalue(s['rv'])))
 
 
